@@ -1,6 +1,6 @@
 import LyModel.Lyb.ChunkCounts7
 /-! Part 8: a whole top-level frame `start :: body ++ [stop]` — the image is a list of counted chunks; it is a
-`GoodFrame` unless it has the shape of finding F50 (a). -/
+`GoodFrame` unless it has the shape of finding F69 (a). -/
 namespace LyModel.Lyb
 
 theorem wrun_append (P : Params) : ∀ (a b : List Op) (w : W),
